@@ -692,6 +692,17 @@ def holder_generic(k: Choice(0, 1, 2, 4, 5, 6), v: BytesLen(0, 255), name: StrLe
     if o.ok:
         ensures("kind", kind_of(o.value) == kind_of(inst))
         ensures("same-octets", both(o.value.pack() == raw, o.value.value == inst.value, o.value.tlv_type == k, o.value.packet_len == len(raw)))
+    # the same holder, AFTER it has converted once: every other kind is still refused and the own kind converts again
+    convs = [(0, h.to_fs_request), (1, h.to_fs_response), (2, h.to_msg_to_user), (4, h.to_fault_handler_override), (5, h.to_flow_label),
+             (6, h.to_entity_id)]
+    for kk, conv in convs:
+        o2 = outcome(conv)
+        if kk == k:
+            ensures("converts-again", o2.ok)
+            if o2.ok:
+                ensures("converts-again-same", both(kind_of(o2.value) == kind_of(inst), o2.value.pack() == raw))
+        else:
+            ensures("other-kind-refused-after-use", o2.raised(TypeError, TlvTypeMissmatch))
 
 
 # ------------------------------------------------------------------------------------------------ status-code helpers
